@@ -48,6 +48,8 @@ def case_jwk(c) -> dict:
     need = needed_op(c)
     if k["ops"] == "has":
         jwk["key_ops"] = ["sign", "verify"] if c["side"] == "jws" else list(ENC_OPS)
+    elif k["ops"] == "empty":
+        jwk["key_ops"] = []
     elif k["ops"] == "lacks":
         if c["side"] == "jws":
             jwk["key_ops"] = ["verify"] if need == "sign" else ["sign"]
